@@ -815,3 +815,20 @@ func (p *Prog) DerivesAnyIP(v ssa.Value, pred ValPred) bool {
 
 // EdgeFacts returns the boolean facts that hold when control flows from b to su.
 func EdgeFacts(b, su *ssa.BasicBlock) []BoolFact { return edgeFacts(b, su) }
+
+// MethodValueMakers: the functions that make a method value of fn (x.M used as a func value).
+func (p *Prog) MethodValueMakers(fn *ssa.Function) []*ssa.Function {
+	var out []*ssa.Function
+	seen := map[*ssa.Function]bool{}
+	for _, g := range p.pandoraFuncs() {
+		EachInstr(g, func(in ssa.Instruction) {
+			if mc, ok := in.(*ssa.MakeClosure); ok {
+				if w, _ := mc.Fn.(*ssa.Function); w != nil && w != fn && BoundTarget(w) == fn && !seen[g] {
+					seen[g] = true
+					out = append(out, g)
+				}
+			}
+		})
+	}
+	return out
+}
